@@ -115,6 +115,7 @@ class Explorer:
             if con.requires is not None:
                 ctx.assume(list(_as_dict(con.call(con.requires, oldview, tys)).values()))
             interp = Interp(ctx, self.reg, self.lib)
+            interp.skeleton = bool(getattr(con, 'skeleton', False))
             try:
                 call_kw = dict(args)
                 kwname = fi.node.args.kwarg.arg if fi.node.args.kwarg is not None else None
@@ -140,7 +141,10 @@ class Explorer:
         if outcome[0] == 'return':
             resv = raw(outcome[1])
             for exc, condf in con.raises.items():
-                ctx.oblige(f'exc.{exc}.if', smt.Not(con.call(condf, oldview, tys)))
+                c_ = con.call(condf, oldview, tys)
+                if isinstance(c_, str) and c_ == 'maybe':
+                    continue
+                ctx.oblige(f'exc.{exc}.if', smt.Not(c_))
             if con.ensures is not None:
                 hints = con.call(con.hints, oldview, tys, resv) if con.hints else []
                 for cname, f in _as_dict(con.call(con.ensures, oldview, tys, resv)).items():
@@ -157,7 +161,8 @@ class Explorer:
         elif outcome[0] == 'raise':
             exc = outcome[1]
             if exc in con.raises:
-                ctx.oblige(f'exc.{exc}.only_if', con.call(con.raises[exc], oldview, tys))
+                c_ = con.call(con.raises[exc], oldview, tys)
+                ctx.oblige(f'exc.{exc}.only_if', True if (isinstance(c_, str) and c_ == 'maybe') else c_)
                 ctx.oblige(f'cover.raise.{exc}', z3.BoolVal(True), expect='sat')
                 if exc in con.exc_ensures:
                     for cname, f in _as_dict(con.call(con.exc_ensures[exc], oldview, tys)).items():
